@@ -20,6 +20,7 @@ KERNELS = [
     ('BaseCore_SetInlineImpl', 'src/algo/base_core.cpp', None, 'yaclib::detail::BaseCore', 'base_core.cpp', 'SetInlineImpl', 'template'),
     ('BaseCore_SetResultImpl', 'src/algo/base_core.cpp', None, 'yaclib::detail::BaseCore', 'base_core.cpp', 'SetResultImpl', 'template'),
     ('BaseCore_Empty', 'src/algo/base_core.cpp', None, 'yaclib::detail::BaseCore', 'base_core.hpp', 'Empty', 0),
+    ('BaseCore_Ready', 'src/algo/base_core.cpp', None, 'yaclib::detail::BaseCore', 'base_core.hpp', 'Ready', 0),
     ('Drop_Impl', 'src/algo/drop_core.cpp', None, 'Drop', 'drop_core.cpp', 'Impl', 'template'),
     ('Promise_Set', None, ['yaclib/async/promise.hpp'], 'yaclib::Promise', 'async/promise.hpp', 'Set', 'template'),
     ('Promise_dtor', None, ['yaclib/async/promise.hpp'], 'yaclib::Promise', 'async/promise.hpp', '~Promise<V, E>', 0),
